@@ -15,21 +15,32 @@ ASSUMPTIONS = [
 ]
 
 
-def class_src(meta, ann, conf, allow, forbid, shadow, disc):
+def class_src(meta, ann, conf, allow, forbid, shadow, disc, anytype=False):
     """f1 has the chosen alias sources; f2 has no alias (its name may be shadowed by f1's alias); f3 defaulted with alias."""
     a_meta = "f2" if shadow else "mA"
-    f1_type = "Annotated[int, Alias('nA')]" if ann else "int"
+    base_t = "Any" if anytype else "int"
+    f1_type = "Annotated[%s, Alias('nA')]" % base_t if ann else base_t
     f1_field = " = field(metadata={'alias': %r})" % a_meta if meta else ""
-    lines = ["@dataclass", "class K(DataClassDictMixin):",
+    lines = []
+    parent = "DataClassDictMixin"
+    if disc:
+        lines += ["@dataclass", "class KBase(DataClassDictMixin):", "    class Config(BaseConfig):",
+                  "        discriminator = Discriminator(field='type', include_subtypes=True)",
+                  "        allow_deserialization_not_by_alias = %r" % allow, "        forbid_extra_keys = %r" % forbid,
+                  "        aliases = %r" % ({"f1": "f2" if (shadow and not meta) else "cA"} if conf else {}), ""]
+        parent = "KBase"
+    lines += ["@dataclass", "class K(%s):" % parent,
              "    f1: %s%s" % (f1_type, f1_field),
              "    f2: int",
-             "    f3: int = field(default=30, metadata={'alias': 'a3'})",
+             "    f3: int = field(default=30, metadata={'alias': 'a3'})"]
+    if disc:
+        lines.append("    type = 'k'")
+        return "\n".join(lines) + "\n"
+    lines += [
              "    class Config(BaseConfig):",
              "        aliases = %r" % ({"f1": "f2" if (shadow and not meta) else "cA"} if conf else {}),
              "        allow_deserialization_not_by_alias = %r" % allow,
              "        forbid_extra_keys = %r" % forbid]
-    if disc:
-        lines.append("        discriminator = Discriminator(field='type', include_subtypes=True)")
     return "\n".join(lines) + "\n"
 
 
@@ -43,9 +54,15 @@ def harnesses(tier, seed):
         for allow, forbid in itertools.product([False, True], repeat=2):
             combos.append((meta, False, conf, allow, forbid, True, False))
     for allow in (False, True):
-        combos.append((True, False, False, allow, True, False, True))
+        for forbid in (False, True):
+            combos.append((True, False, False, allow, forbid, False, True))
+            combos.append((False, False, True, allow, forbid, False, True))
+    anycombos = []
+    for meta, ann, conf in ((True, False, False), (False, True, False), (False, False, True), (True, True, True)):
+        for allow in (False, True):
+            anycombos.append((meta, ann, conf, allow, False, False, False))
     if tier == "quick":
-        combos = combos[::2] + combos[-6:]
+        combos = combos[::2] + combos[-8:]
     seen = set()
     for c in combos:
         if c in seen:
@@ -54,9 +71,10 @@ def harnesses(tier, seed):
         name = "K_" + "".join("1" if x else "0" for x in c)
         s = Schema(name, "K", class_src(*c))
         kw = "extra=('type',)" if c[6] else ""
-        if c[6]:
-            continue  # class-level discriminator changes from_dict into a variant dispatcher: covered in C12
         hs.append(gen.custom_harness("C09", "c09", s, "mixin", kw, kw))
+    for c in anycombos:
+        name = "KA_" + "".join("1" if x else "0" for x in c)
+        hs.append(gen.custom_harness("C09", "c09", Schema(name, "K", class_src(*c, anytype=True)), "mixin"))
     return hs
 
 
